@@ -2,8 +2,10 @@ package main
 
 import (
 	"fmt"
+	"go/token"
 	"go/types"
 	"golang.org/x/tools/go/packages"
+	"os"
 	"sort"
 	"strconv"
 	"strings"
@@ -215,6 +217,85 @@ func (x *Engine) guardFuncs(prop string, pkgs []*packages.Package) []string {
 		_ = called
 		out = append(out, k)
 	}
+	// An unexported helper without a contract of its own that is only ever called (never used as a value) from
+	// functions that are themselves verified under this property is covered through them: it is inlined at every call
+	// site, where its accesses are checked against the locks the caller actually holds ("fooLocked" helpers). Verifying
+	// it on its own as well — as if entered from outside, holding nothing — would flag exactly that idiom.
+	inSet := map[string]bool{}
+	for _, k := range out {
+		inSet[k] = true
+	}
+	verified := func(fn *ssa.Function) bool {
+		for fn != nil && fn.Parent() != nil {
+			fn = fn.Parent()
+		}
+		if fn == nil {
+			return false
+		}
+		k := specKeyOf(fn)
+		if fs := x.db.Funcs[k]; fs != nil && hasProp(fs.Props, prop) && !fs.Assumed {
+			return true
+		}
+		return inSet[k]
+	}
+	var kept []string
+	for _, k := range out {
+		fn := x.fnByKey[k]
+		if fn == nil || x.db.Funcs[k] != nil || token.IsExported(fn.Name()) {
+			kept = append(kept, k)
+			continue
+		}
+		callers, escapes := 0, false
+		for _, g := range x.fnByKey {
+			if g.Pkg != fn.Pkg {
+				continue
+			}
+			var scan func(h *ssa.Function)
+			scan = func(h *ssa.Function) {
+				for _, b := range h.Blocks {
+					for _, in := range b.Instrs {
+						if c, ok := in.(ssa.CallInstruction); ok && c.Common().StaticCallee() == fn {
+							if _, isGo := in.(*ssa.Go); isGo || !verified(h) || h == fn {
+								escapes = true
+								if os.Getenv("VCGO_DEBUG_GUARD") != "" {
+									fmt.Fprintf(os.Stderr, "  caller %s of %s: go=%v verified=%v\n", specKeyOf(h), k, isGo, verified(h))
+								}
+							}
+							callers++
+							for _, a := range c.Common().Args {
+								if a == ssa.Value(fn) {
+									escapes = true
+								}
+							}
+							continue
+						}
+						if _, isDbg := in.(*ssa.DebugRef); isDbg {
+							continue
+						}
+						for _, op := range in.Operands(nil) {
+							if op != nil && *op == ssa.Value(fn) {
+								if c, ok := in.(ssa.CallInstruction); !ok || c.Common().Value != ssa.Value(fn) {
+									escapes = true // used as a value: may run anywhere
+								}
+							}
+						}
+					}
+				}
+				for _, an := range h.AnonFuncs {
+					scan(an)
+				}
+			}
+			scan(g)
+		}
+		if os.Getenv("VCGO_DEBUG_GUARD") != "" {
+			fmt.Fprintf(os.Stderr, "guard helper %s: callers=%d escapes=%v\n", k, callers, escapes)
+		}
+		if callers > 0 && !escapes {
+			continue // covered through its (verified) callers
+		}
+		kept = append(kept, k)
+	}
+	out = kept
 	sort.Strings(out)
 	return out
 }
